@@ -358,6 +358,17 @@ func c01Apply(b c01Behaviour, orig net.TaggedMarshaler, self int, n, t int, sec 
 			k := rng.Intn(len(x.commitments))
 			x.commitments[k] = new(bn256.G1).ScalarBaseMult(big.NewInt(int64(2 + rng.Intn(1000))))
 			return []net.TaggedMarshaler{x}, true
+		case "p3-commitments-conflict-bad-first", "p3-commitments-conflict-good-first":
+			// two conflicting messages, the same two in the same order for
+			// everybody: the first one is the one that counts
+			bad := c01Clone(orig).(*MemberCommitmentsMessage)
+			bad.commitments = append([]*bn256.G1(nil), bad.commitments...)
+			k := rng.Intn(len(bad.commitments))
+			bad.commitments[k] = new(bn256.G1).ScalarBaseMult(big.NewInt(int64(2 + rng.Intn(1000))))
+			if b.Name == "p3-commitments-conflict-bad-first" {
+				return []net.TaggedMarshaler{bad, x}, true
+			}
+			return []net.TaggedMarshaler{x, bad}, true
 		}
 	case *SecretSharesAccusationsMessage:
 		if c01Accuse(b, x.accusedMembersKeys, self, n, sec) {
@@ -494,7 +505,7 @@ func c01Accuse(b c01Behaviour, keys map[group.MemberIndex]*ephemeral.PrivateKey,
 var c01Vocabulary = map[string][]string{
 	c01P1:  {"silent", "duplicate", "spoof-sender:V", "spoof-plus-own:V", "wrong-session", "wrong-session-plus-own", "p1-missing-entry:V", "p1-extra-entry", "p1-conflict-bad-first:V", "p1-conflict-good-first:V"},
 	c01P3S: {"silent", "duplicate", "spoof-sender:V", "wrong-session", "p3-shares-missing:V", "p3-shares-garbage:V", "p3-shares-wrong:V", "p3-shares-empty:V", "p3-shares-extra-entry", "p3-conflict-bad-first:V"},
-	c01P3C: {"silent", "duplicate", "spoof-sender:V", "wrong-session", "p3-commitments-short", "p3-commitments-long", "p3-commitments-empty", "p3-commitments-random"},
+	c01P3C: {"silent", "duplicate", "spoof-sender:V", "wrong-session", "p3-commitments-short", "p3-commitments-long", "p3-commitments-empty", "p3-commitments-random", "p3-commitments-conflict-bad-first", "p3-commitments-conflict-good-first"},
 	c01P4:  {"silent", "duplicate", "spoof-sender:V", "spoof-plus-own:V", "wrong-session", "acc-false:V", "acc-wrong-key:V", "acc-zero-key:V", "acc-self", "acc-index-zero", "acc-index-above", "acc-drop"},
 	c01P7:  {"silent", "duplicate", "spoof-sender:V", "wrong-session", "p7-points-random", "p7-points-short", "p7-points-long", "p7-points-empty", "p7-points-partial:S"},
 	c01P8:  {"silent", "duplicate", "spoof-sender:V", "spoof-plus-own:V", "wrong-session", "acc-false:V", "acc-wrong-key:V", "acc-zero-key:V", "acc-self", "acc-index-zero", "acc-index-above", "acc-drop"},
@@ -845,6 +856,8 @@ func c01Curated() []c01Case {
 		add(n, t, map[int]c01Script{2: {c01P7: B("p7-points-partial", 0, 1)}})
 		add(n, t, map[int]c01Script{2: {c01P7: B("p7-points-partial", 0, 3)}})
 		add(n, t, map[int]c01Script{2: {c01P8: B("acc-false", 3)}})
+		add(n, t, map[int]c01Script{n: {c01P3C: B("p3-commitments-conflict-bad-first", 0)}})
+		add(n, t, map[int]c01Script{2: {c01P3C: B("p3-commitments-conflict-good-first", 0)}})
 		add(n, t, map[int]c01Script{2: {c01P7: B("p7-points-random", 0), c01P10: B("silent", 0)}})
 		add(n, t, map[int]c01Script{2: {c01P3S: B("p3-shares-wrong", 1), c01P4: B("acc-false", 3), c01P7: B("p7-points-random", 0)}})
 		add(n, t, map[int]c01Script{1: {c01P1: B("spoof-plus-own", 2), c01P4: B("acc-wrong-key", 3), c01P8: B("acc-index-zero", 0)}})
